@@ -216,6 +216,11 @@ for _mode in _MODES:
         for _redir in (False, True):
             _add("length/mode=%s/m=%s/M=%s/%s" % (_mode, _m, _M, "redirect" if _redir else "discard"),
                  option_set(mode=_mode, m=_m, M=_M, short_out=_redir, long_out=_redir), "t")
+    # a bound of 0 is a bound, not "no restriction" (LEN:0 is not LEN:)
+    for _m, _M in (("2:0", "3:0"), ("0:2", "0")):
+        for _redir in (False, True):
+            _add("length/zero-bound/mode=%s/m=%s/M=%s/%s" % (_mode, _m, _M, "redirect" if _redir else "discard"),
+                 option_set(mode=_mode, m=_m, M=_M, short_out=_redir, long_out=_redir), "t")
 
 # trimmed / untrimmed filters: adapters on R1 only, R2 only, both x mode x option
 for _mode in _MODES:
@@ -270,7 +275,7 @@ def describe():
                       "cli.py:get_argument_parser, determine_paired, check_arguments, adapters_from_args (native, per option set), make_pipeline_from_args, make_filter, parse_lengths, determine_demultiplex_mode (under CrossHair)",
                       "predicates.py:TooShort, TooLong, TooManyN, TooManyExpectedErrors, TooHighAverageErrorRate, CasavaFiltered, IsUntrimmed, IsTrimmed (.test)",
                       "modifiers.py:PairedAdapterCutter.__init__/__call__/_find_best_match_pair", "pipeline.py:PairedEndPipeline.process_reads (its step loop, re-stated in paired_common.push_pair)"],
-        "bounds": {"option_sets": "%d paired command lines, one per condition: --pair-filter absent/any/both/first x -m/-M as LEN, LEN:, :LEN2, LEN:LEN2 with and without --too-short/--too-long(-paired)-output; adapters on R1 only / R2 only / both x --discard-untrimmed / --untrimmed(-paired)-output / --discard-trimmed; --max-n, --max-ee, --max-aer, --discard-casava; combinations; interleaved input and/or output; --rest-file/--wildcard-file; {name} and {name1}/{name2} outputs" % sum(1 for c in CONDITIONS if c["fn"] == "check_pair_decision"),
+        "bounds": {"option_sets": "%d paired command lines, one per condition: --pair-filter absent/any/both/first x -m/-M as LEN, LEN:, :LEN2, LEN:LEN2 (also with bounds of 0: 2:0, 3:0, 0:2, 0) with and without --too-short/--too-long(-paired)-output; adapters on R1 only / R2 only / both x --discard-untrimmed / --untrimmed(-paired)-output / --discard-trimmed; --max-n, --max-ee, --max-aer, --discard-casava; combinations; interleaved input and/or output; --rest-file/--wildcard-file; {name} and {name1}/{name2} outputs" % sum(1 for c in CONDITIONS if c["fn"] == "check_pair_decision"),
                    "pair": "one pair per condition; per mate: text out of 3..6 fixed texts (lengths 0..6, 0..5 N bases), expected errors out of {0, 1, 2.5}, CASAVA flag, matched flag, last matching adapter out of <= 3; pair id any int in 0..1e9",
                    "pair_adapters": "1..3 adapter pairs, each adapter found or not, score -8..8, errors 0..3; actions trim, mask, lowercase, retain, none; fixed match coordinates that differ per rank"},
         "outside_bounds": ["more than one pair per run is covered by induction only (the steps read no state that a previous pair wrote, counters are only incremented)",
